@@ -43,10 +43,21 @@ type ipatIn struct {
 	Lo   []int  `json:"lo"`
 	Hi   []int  `json:"hi"`
 	Bits int    `json:"bits"`
+	// Txt: the pattern as it is written in the query when that is not the plain rendering (IPv6 spellings); the
+	// specification PARSES the stage's text and compares with k / lo / hi / bits
+	Txt string `json:"-"`
 }
 
 func (p *ipatIn) text() string {
-	a := func(x []int) string { return fmt.Sprintf("%d.%d.%d.%d", x[0], x[1], x[2], x[3]) }
+	if p.Txt != "" {
+		return p.Txt
+	}
+	a := func(x []int) string {
+		if len(x) == 8 {
+			return ip6Text(x, 0)
+		}
+		return fmt.Sprintf("%d.%d.%d.%d", x[0], x[1], x[2], x[3])
+	}
 	switch p.K {
 	case "range":
 		return a(p.Lo) + "-" + a(p.Hi)
@@ -665,7 +676,11 @@ func genLogq(r *rand.Rand, mode string) logqIn {
 			in.Recs[i].Line, in.Recs[i].Doc = B(pick(r, []string{"a", "b", "web", "xaby", "we", "", "aa", "b a"})), [][2][]int{}
 		}
 	} else if mode == "select" && r.Intn(8) == 0 {
-		genIPCase(r, &in)
+		if r.Intn(2) == 0 {
+			genIP6Case(r, &in)
+		} else {
+			genIPCase(r, &in)
+		}
 	} else if mode == "select" && r.Intn(10) == 0 {
 		// the same value several records in a row (a filter must judge each record on its own), unparsable ones included
 		kind := []string{"num", "dur", "bytes"}[r.Intn(3)]
@@ -862,6 +877,118 @@ var ipPats = []ipatIn{
 	{K: "cidr", Lo: []int{10, 0, 0, 1}, Hi: []int{10, 0, 0, 1}, Bits: 32}, {K: "cidr", Lo: []int{192, 168, 0, 0}, Hi: []int{192, 168, 0, 0}, Bits: 16},
 	{K: "cidr", Lo: []int{10, 0, 0, 0}, Hi: []int{10, 0, 0, 0}, Bits: 7}, {K: "cidr", Lo: []int{10, 0, 0, 8}, Hi: []int{10, 0, 0, 8}, Bits: 29},
 	{K: "cidr", Lo: []int{10, 0, 1, 0}, Hi: []int{10, 0, 1, 0}, Bits: 23},
+}
+
+// ip6Text spells an IPv6 address (8 groups): 0 compressed at the first run of zero groups, lower case; 1 all eight groups;
+// 2 all eight groups padded to four digits; 3 compressed, upper case; 4 all eight groups, upper case.
+func ip6Text(x []int, style int) string {
+	g := make([]string, 8)
+	for i, v := range x {
+		switch style {
+		case 2:
+			g[i] = fmt.Sprintf("%04x", v)
+		case 3, 4:
+			g[i] = fmt.Sprintf("%X", v)
+		default:
+			g[i] = fmt.Sprintf("%x", v)
+		}
+	}
+	if style == 0 || style == 3 {
+		for i := 0; i < 8; i++ {
+			if x[i] == 0 {
+				j := i
+				for j+1 < 8 && x[j+1] == 0 {
+					j++
+				}
+				return strings.Join(g[:i], ":") + "::" + strings.Join(g[j+1:], ":")
+			}
+		}
+	}
+	return strings.Join(g, ":")
+}
+
+var ip6Addrs = [][]int{{0, 0, 0, 0, 0, 0, 0, 1}, {0x2001, 0xdb8, 0, 0, 0, 0, 0, 1}, {0x2001, 0xdb8, 0, 0, 0, 0, 0, 0xff}, {0x2001, 0xdb8, 0, 0, 0, 0, 0, 0x100},
+	{0xfe80, 0, 0, 0, 0, 0, 0, 1}, {0xfebf, 0xffff, 0, 0, 0, 0, 0, 0xabcd}, {0xfec0, 0, 0, 0, 0, 0, 0, 1}, {0x2001, 0xdb9, 0, 0, 0, 0, 0, 0}, {0, 0, 0, 0, 0, 0, 0, 0},
+	{0x2001, 0xdb8, 0, 0, 1, 0, 0, 1}, {0xa, 0xb, 0xc, 0xd, 0xe, 0xf, 0x10, 0xABCD}}
+
+var ip6Pats = []ipatIn{
+	{K: "addr", Lo: ip6Addrs[0], Hi: ip6Addrs[0], Bits: 128}, {K: "addr", Lo: ip6Addrs[1], Hi: ip6Addrs[1], Bits: 128}, {K: "addr", Lo: ip6Addrs[5], Hi: ip6Addrs[5], Bits: 128},
+	{K: "addr", Lo: ip6Addrs[10], Hi: ip6Addrs[10], Bits: 128}, {K: "addr", Lo: ip6Addrs[9], Hi: ip6Addrs[9], Bits: 128},
+	{K: "range", Lo: ip6Addrs[1], Hi: ip6Addrs[2]}, {K: "range", Lo: ip6Addrs[8], Hi: ip6Addrs[0]},
+	{K: "cidr", Lo: []int{0xfe80, 0, 0, 0, 0, 0, 0, 0}, Hi: []int{0xfe80, 0, 0, 0, 0, 0, 0, 0}, Bits: 10}, {K: "cidr", Lo: ip6Addrs[8], Hi: ip6Addrs[8], Bits: 0},
+	{K: "cidr", Lo: ip6Addrs[1], Hi: ip6Addrs[1], Bits: 32}, {K: "cidr", Lo: ip6Addrs[1], Hi: ip6Addrs[1], Bits: 128}, {K: "cidr", Lo: ip6Addrs[1], Hi: ip6Addrs[1], Bits: 120},
+	{K: "cidr", Lo: ip6Addrs[1], Hi: ip6Addrs[1], Bits: 65},
+}
+
+// genIP6Case: the same over IPv6 (and IPv4 lines / patterns mixed in: a pattern of one family accepts no address of the
+// other).  Addresses stand in every spelling; near-addresses (a trailing colon, five digits in a group, two "::") are none.
+func genIP6Case(r *rand.Rand, in *logqIn) {
+	spell := func(x []int) string { return ip6Text(x, r.Intn(5)) }
+	line := func() string {
+		a := spell(ip6Addrs[r.Intn(len(ip6Addrs))])
+		switch r.Intn(12) {
+		case 0:
+			return "[" + a + "]:80"
+		case 1:
+			return a + ": timeout"
+		case 2:
+			return "from " + a + " to " + spell(ip6Addrs[r.Intn(len(ip6Addrs))])
+		case 3:
+			return pick(r, []string{"ab", "abcd1"}) + a
+		case 4:
+			return "host=" + a + " peer=10.0.0.1"
+		case 5:
+			return "10.0.0.1 no six"
+		case 6:
+			return a + "::"
+		case 7:
+			return "a " + a
+		case 8:
+			return pick(r, []string{"::", ":", "1::2::3", "12345::1", "1:2:3:4:5:6:7:8:9", "1:2:3:4:5:6:7::", "::1:2:3:4:5:6:7:8", "g::1", "dead beef: x", ""})
+		}
+		return a
+	}
+	for i := range in.Recs {
+		in.Recs[i].Line, in.Recs[i].Doc = B(line()), [][2][]int{}
+		in.Recs[i].Attrs = [][2][]int{}
+		if r.Intn(4) != 0 {
+			v := spell(ip6Addrs[r.Intn(len(ip6Addrs))])
+			if r.Intn(5) == 0 {
+				v = pick(r, []string{"10.0.0.1", "junk", "", "::1x", " ::1", "1::2::3", "::"})
+			}
+			in.Recs[i].Attrs = append(in.Recs[i].Attrs, [2][]int{B("ip"), B(v)})
+		}
+	}
+	in.Sel = []matcherIn{}
+	eps, _ := json.Marshal(&ReAST{T: "eps"})
+	pat := func() ipatIn {
+		if r.Intn(6) == 0 {
+			return ipPats[r.Intn(len(ipPats))]
+		}
+		p := ip6Pats[r.Intn(len(ip6Pats))]
+		st := r.Intn(5)
+		switch p.K {
+		case "range":
+			p.Txt = ip6Text(p.Lo, st) + "-" + ip6Text(p.Hi, r.Intn(5))
+		case "cidr":
+			p.Txt = ip6Text(p.Lo, st) + "/" + strconv.Itoa(p.Bits)
+		default:
+			p.Txt = ip6Text(p.Lo, st)
+		}
+		return p
+	}
+	ipStage := func() stageIn {
+		p := pat()
+		op := []string{"eq", "neq"}[r.Intn(2)]
+		if r.Intn(3) != 0 {
+			return stageIn{T: "line", Op: op, Val: B(p.text()), Re: eps, IP: true, Ipat: &p}
+		}
+		return stageIn{T: "label", Pred: &predIn{T: "ip", Label: B("ip"), Op: op, Val: B(p.text()), Ipat: &p, Re: eps}}
+	}
+	in.Stages = []stageIn{ipStage()}
+	if r.Intn(3) == 0 {
+		in.Stages = append(in.Stages, ipStage())
+	}
 }
 
 // genIPCase turns a case into one about ip("...") filters over IPv4: lines and a label `ip` without colons and without
